@@ -620,7 +620,7 @@ func (fx *fnExec) evalCall(e *Expr, env *Env) TV {
 			return TV{Sc{fx.gposOf(env.cur, ref), SInt}, tInt}
 		}
 		return TV{Sc{fx.gendOf(env.cur, ref), SInt}, tInt}
-	case "pf", "within", "argsWithin", "pfLocals":
+	case "pf", "within", "argsWithin", "pfLocals", "spans":
 		if !fx.g.positions {
 			return TV{Sc{"true", SBool}, tBool}
 		}
@@ -632,6 +632,10 @@ func (fx *fnExec) evalCall(e *Expr, env *Env) TV {
 		v := fx.eval(e.Args[0], env)
 		lo, hi := fx.evalInt(e.Args[1], env), fx.evalInt(e.Args[2], env)
 		return TV{Sc{fx.withinTerm(v, env.cur, lo, hi), SBool}, tBool}
+	case "spans!": // spans(x, lo, hi): x is nil/empty, or starts exactly at lo and ends exactly at hi
+		v := fx.eval(e.Args[0], env)
+		lo, hi := fx.evalInt(e.Args[1], env), fx.evalInt(e.Args[2], env)
+		return TV{Sc{fx.spansTerm(v, env.cur, lo, hi), SBool}, tBool}
 	case "lowerBound": // the earliest position a node built by this call can start at
 		cur := *env
 		cur.cur = env.old
@@ -727,6 +731,15 @@ func (fx *fnExec) evalCall(e *Expr, env *Env) TV {
 	case "notNil": // reference results: non-nil and not a typed nil; anything else: true
 		v := fx.eval(e.Args[0], env)
 		return TV{Sc{notNilTerm(v.V), SBool}, tBool}
+	case "isEmpty": // nil reference, typed nil or empty slice; false for anything else
+		v := fx.eval(e.Args[0], env)
+		switch x := v.V.(type) {
+		case SliceV:
+			return TV{Sc{eq(x.Len, "0"), SBool}, tBool}
+		case IfV, PtrV:
+			return TV{Sc{not(notNilTerm(x)), SBool}, tBool}
+		}
+		return TV{Sc{"false", SBool}, tBool}
 	case "isNil":
 		v := fx.eval(e.Args[0], env)
 		switch x := v.V.(type) {
@@ -1262,6 +1275,28 @@ func (fx *fnExec) withinTerm(v TV, st *State, lo, hi string) string {
 		return "true"
 	}
 	return or(isNil, and(app("<=", lo, fx.gposOf(st, ref)), app("<=", fx.gposOf(st, ref), fx.gendOf(st, ref)), app("<=", fx.gendOf(st, ref), hi)))
+}
+
+// spansTerm: exact span of a node reference (nil: true), of a node slice (first element starts at lo,
+// last ends at hi; empty: true); anything else: true.
+func (fx *fnExec) spansTerm(v TV, st *State, lo, hi string) string {
+	switch x := v.V.(type) {
+	case TupleV:
+		return "true"
+	case SliceV:
+		if !fx.g.isNodeRefType(x.Elem) {
+			return "true"
+		}
+		first, last := fx.elemRef(x, "0"), fx.elemRef(x, sub(x.Len, "1"))
+		return or(eq(x.Len, "0"), and(eq(fx.gposOf(st, first), lo), eq(fx.gendOf(st, last), hi)))
+	case Sc:
+		return "true"
+	}
+	ref, isNil, _, ok := refOf(v.V)
+	if !ok || !fx.g.isNodeRefType(v.T) {
+		return "true"
+	}
+	return or(isNil, and(eq(fx.gposOf(st, ref), lo), eq(fx.gendOf(st, ref), hi)))
 }
 
 // tokenSpan: Pos and End of a token.Token passed by value.
